@@ -41,9 +41,9 @@ type connectFuture struct {
 }
 
 func (f *connectFuture) SessionPresent() bool {
-	// get result
-	connack := f.Result().(*packet.Connack)
-	if connack == nil {
+	// get result (missing if pending or cancelled without a connack)
+	connack, ok := f.Result().(*packet.Connack)
+	if !ok || connack == nil {
 		return false
 	}
 
@@ -51,9 +51,9 @@ func (f *connectFuture) SessionPresent() bool {
 }
 
 func (f *connectFuture) ReturnCode() packet.ConnackCode {
-	// get result
-	connack := f.Result().(*packet.Connack)
-	if connack == nil {
+	// get result (missing if pending or cancelled without a connack)
+	connack, ok := f.Result().(*packet.Connack)
+	if !ok || connack == nil {
 		return 0
 	}
 
@@ -65,9 +65,9 @@ type subscribeFuture struct {
 }
 
 func (f *subscribeFuture) ReturnCodes() []packet.QOS {
-	// get result
-	suback := f.Result().(*packet.Suback)
-	if suback == nil {
+	// get result (missing if pending or cancelled)
+	suback, ok := f.Result().(*packet.Suback)
+	if !ok || suback == nil {
 		return nil
 	}
 
